@@ -220,7 +220,8 @@ def _classify_value(eng, fd, pl, bi, line, depth, payload=False):
     if pf and str(pf[-1].get('ty', '')) in ('bool', 'usize', 'u64', 'u32', 'u8'):
         payload = True
     if fd.is_param(l) and all(p['k'] in ('deref', 'downcast') for p in pl.get('p', [])) and \
-            body.local_ty(l).lstrip('&').startswith(('std::result::Result<', 'std::option::Option<')):
+            (body.local_ty(l).lstrip('&').startswith(('std::result::Result<', 'std::option::Option<')) or body.local_ty(l).lstrip('&').strip() == 'bool'):
+        # a Result / Option / bool handed in by the caller (`from_parsed(parse(..))`, `ensure(cond, || err)?`): decided by the caller's argument
         g = Gate('match', 'param', [fd.read_place(pl)], body.path, bi, line)
         g.param = l
         return g
@@ -289,6 +290,46 @@ def _classify_value(eng, fd, pl, bi, line, depth, payload=False):
                         callee=tgt, args=x['args'])
         if callee in PASS_THROUGH and x['args'] and x['args'][0]['k'] in ('copy', 'move'):
             return _classify_value(eng, fd, x['args'][0]['pl'], bi, line, depth + 1, payload and callee in ('std::ops::Try::branch', 'std::result::Result::<T, E>::map_err'))
+        # Option / Result combinators that decide Some-ness from their parts
+        short = callee.split('::')[-1]
+        if callee.startswith(('std::option::Option', 'std::result::Result')) and short in ('zip', 'and', 'filter', 'is_some_and', 'is_ok_and', 'and_then', 'then_some') \
+                and x['args'] and x['args'][0]['k'] in ('copy', 'move') and depth < 10:
+            subs = [_classify_value(eng, fd, x['args'][0]['pl'], bi, line, depth + 1)]
+            if short in ('zip', 'and') and len(x['args']) > 1 and x['args'][1]['k'] in ('copy', 'move'):
+                subs.append(_classify_value(eng, fd, x['args'][1]['pl'], bi, line, depth + 1))
+            elif len(x['args']) > 1 and x['args'][1]['k'] in ('copy', 'move') and not x['args'][1]['pl'].get('p'):
+                ci = fd._closure_info(x['args'][1]['pl']['l'])
+                cfd = eng.fndep(ci[0]) if ci is not None else None
+                if cfd is not None and cfd.body.local_ty(0) == 'bool':
+                    # the predicate: what the closure's boolean is computed from, in this body's terms
+                    elem = fd.read_op(x['args'][0])
+                    g0 = _classify_value(eng, cfd, {'l': 0}, bi, line, depth + 1)
+                    stack = [g0]
+                    while stack:
+                        g2 = stack.pop()
+                        if g2.kind == 'multi':
+                            stack.extend(g2.args or [])
+                            continue
+                        ops2 = []
+                        for o in g2.operands:
+                            oo = set()
+                            for a in o:
+                                st = strip(a)
+                                if st[0] == 'p' and st[1] == 1:
+                                    k = st[2][0] if st[2] else None
+                                    if k is not None and str(k).isdigit() and int(k) < len(ci[1]):
+                                        oo |= fd.read_op(ci[1][int(k)])
+                                elif st[0] == 'p':
+                                    oo |= elem
+                                else:
+                                    oo.add(a)
+                            ops2.append(oo)
+                        ng = Gate(g2.kind if g2.kind != 'deleg' else 'call', g2.what, ops2, g2.fn, bi, line, g2.callee, None, None, g2.const_ops)
+                        ng.negated = g2.negated
+                        subs.append(ng)
+            g = Gate('multi', 'option-combinator:' + short, [set().union(*[q.all_atoms() for q in subs])], body.path, bi, line)
+            g.args = subs
+            return g
         ops = []
         for a in x['args']:
             ops.append(fd.read_op(a))
@@ -404,8 +445,8 @@ class GateAnalysis:
                     subs = []
                     for s2 in self._flatten(g2):
                         s2.dom = g.dom and dom
-                        if s2.truth is None:
-                            s2.truth = g.truth
+                        if s2.truth is None and g.truth is not None:
+                            s2.truth = (not g.truth) if s2.negated else g.truth
                         subs.append(s2)
                     for s2 in subs:
                         if s2.kind == 'deleg':
